@@ -539,6 +539,9 @@ func (p *Parser) parseBuffer(buf []byte, last bool) (err error) {
 			}
 			off += i
 		case valPlus:
+			if !p.canPlus() {
+				return p.newError(off, "unexpected character '+'")
+			}
 			p.mode = plusMap
 			// Store additional state (plus) to be used later in addString()
 			// instead of creating another set of modes for this semi-rare
@@ -813,6 +816,22 @@ func (p *Parser) addTokenWith(s string, off int) {
 	default:
 		p.stack = append(p.stack, s)
 	}
+}
+
+// canPlus reports whether the value just read is a string a '+' can append to.
+func (p *Parser) canPlus() bool {
+	if len(p.stack) == 0 {
+		return false
+	}
+	if 0 < len(p.starts) && p.starts[len(p.starts)-1] == -1 { // object
+		obj, ok := p.stack[len(p.stack)-1].(map[string]any)
+		if ok {
+			_, ok = obj[string(p.lastKey)].(string)
+		}
+		return ok
+	}
+	_, ok := p.stack[len(p.stack)-1].(string)
+	return ok
 }
 
 func (p *Parser) addString(s string, off int) {
